@@ -64,6 +64,9 @@ def classify(rec, clauses):
 def run(ctx, module="C03Trace"):
     thorough = ctx.tier == "thorough"
     ctx.mc("MC_FaceTopology", "MC_FaceTopology_thorough.cfg" if thorough else "MC_FaceTopology_quick.cfg")
+    if thorough:
+        for shape in ("3x1", "1x3", "2x1N3", "1x1"):
+            ctx.mc("MC_FaceTopology", f"MC_FaceTopology_{shape}.cfg", workers=8)
     rng = random.Random(ctx.seed * 49979687 + 3)
     n = 10000 if thorough else 500
     cases = [gen_case(rng, k + 1) for k in range(n)]
